@@ -601,8 +601,8 @@ impl OutputFormat for IcyDraw {
                                             .push(Sixel::from_data((width, height), vert_scale, horiz_scale, bytes[o..].to_vec()));
                                         result.layers.push(layer);
                                     } else {
-                                        if bytes.len() < o + length {
-                                            return Err(anyhow::anyhow!("data length out ouf bounds {} data lenth: {}", o + length, bytes.len()));
+                                        if bytes.len() - o < length {
+                                            return Err(anyhow::anyhow!("data length out ouf bounds {} data lenth: {}", length, bytes.len() - o));
                                         }
                                         for y in 0..height {
                                             if o >= bytes.len() {
